@@ -442,6 +442,20 @@ def F23():
         shutil.rmtree(d, ignore_errors=True)
 
 
+def F30():
+    common, cf = {"site": "a"}, {"n": 1}
+    db = TinyFlux(storage=MemoryStorage)
+    db.insert_multiple([Point(time=t(i), tags=common, fields=cf) for i in range(3)])
+    n = db.update(TimeQuery() == t(0), tags={"checked": "yes"})
+    got = [dict(p.tags) for p in db.all()]
+    if n != 1 or got != [{"site": "a", "checked": "yes"}, {"site": "a"}, {"site": "a"}]:
+        return f"three points built from one tags mapping; update of the first alone returned {n} and left tags {got}"
+    db.update_all(fields=lambda f: {"n": f["n"] + 1})
+    ns = [p.fields["n"] for p in db.all()]
+    if ns != [2, 2, 2]:
+        return f"update_all(n -> n + 1) on three points sharing one fields mapping gave n = {ns}"
+
+
 ALL = [k for k in list(globals()) if re.fullmatch(r"F\d+[a-c]?", k)]
 
 if __name__ == "__main__":
